@@ -54,9 +54,18 @@ import (
 // case description
 
 type e2eTask struct {
-	Tag    string `json:"tag"`
+	Tag     string `json:"tag"`
+	Digest  string `json:"digest"`
+	Deps    []int  `json:"deps"` // indices into Blobs
+	DelayMs int    `json:"delay_ms,omitempty"`
+	// Repush: the same tag is pushed again (other digest, other dependency
+	// list) right after the delayed first task was queued.
+	Repush *e2eRepush `json:"repush,omitempty"`
+}
+
+type e2eRepush struct {
 	Digest string `json:"digest"`
-	Deps   []int  `json:"deps"` // indices into Blobs
+	Deps   []int  `json:"deps"`
 }
 
 type e2eCase struct {
@@ -67,8 +76,12 @@ type e2eCase struct {
 	// per blob: how its commits at the remote origin behave, per arrival
 	Hold     [][]bool `json:"hold"`      // arrival k of blob b is held open until released
 	FailOnce []bool   `json:"fail_once"` // the first commit of blob b answers 500
-	RelSeed  int64    `json:"release_seed"`
-	Workers  int      `json:"workers"`
+	// Lose: the remote origin loses the first upload of blob b (upload dir wiped /
+	// stale upload cleaned): "commit404" = after the last PATCH, the commit is
+	// answered 404; "patch404" / "patch410" = the first PATCH is answered so.
+	Lose    []string `json:"lose_upload"`
+	RelSeed int64    `json:"release_seed"`
+	Workers int      `json:"workers"`
 }
 
 func genE2E(r *rand.Rand, id int) e2eCase {
@@ -83,6 +96,16 @@ func genE2E(r *rand.Rand, id int) e2eCase {
 		}
 		c.Hold = append(c.Hold, h)
 		c.FailOnce = append(c.FailOnce, r.Intn(5) == 0)
+		lose := ""
+		switch p := r.Intn(20); {
+		case p < 4:
+			lose = "commit404"
+		case p == 4:
+			lose = "patch404"
+		case p == 5:
+			lose = "patch410"
+		}
+		c.Lose = append(c.Lose, lose)
 	}
 	nt := 2 + r.Intn(2)
 	shared := r.Intn(nb) // every task depends on this blob
@@ -106,6 +129,20 @@ func genE2E(r *rand.Rand, id int) e2eCase {
 			}
 		}
 		c.Tasks = append(c.Tasks, t)
+	}
+	if r.Intn(4) == 0 {
+		// one tag is pushed twice; the second image has a layer of its own
+		c.BlobSizes = append(c.BlobSizes, 1+r.Intn(3000))
+		c.BlobSeeds = append(c.BlobSeeds, r.Int63())
+		c.Hold = append(c.Hold, []bool{false, r.Intn(2) == 0})
+		c.FailOnce = append(c.FailOnce, false)
+		c.Lose = append(c.Lose, "")
+		t := &c.Tasks[r.Intn(len(c.Tasks))]
+		t.DelayMs = 30 + r.Intn(30)
+		t.Repush = &e2eRepush{Digest: hex64(r), Deps: []int{nb}}
+		if r.Intn(2) == 0 {
+			t.Repush.Deps = append(t.Repush.Deps, shared)
+		}
 	}
 	return c
 }
@@ -138,7 +175,9 @@ type e2eState struct {
 	uploads  map[string]*bytes.Buffer // uid -> received bytes
 	held     []*heldCommit
 	tags     map[string]bool
-	deps     map[string][]string
+	deps     map[string][]string // manifest digest hex -> dependency blob hexes (per-digest table)
+	pushed   map[string][]string // tag -> digests pushed for it
+	lost     map[string]bool
 	findings []finding
 	execCh   chan struct{}
 	nextUID  int
@@ -247,10 +286,25 @@ func (g *e2eRig) remoteOrigin(w http.ResponseWriter, r *http.Request) {
 	case r.Method == "PATCH" && len(rest) == 3:
 		b, _ := io.ReadAll(r.Body)
 		s.mu.Lock()
-		if buf := s.uploads[rest[2]]; buf != nil {
+		mode := s.spec.Lose[s.index[hex]]
+		if strings.HasPrefix(mode, "patch") && !s.lost[hex] {
+			s.lost[hex] = true
+			delete(s.uploads, rest[2])
+			s.logLocked(e2eEvent{Kind: "upload_lost", Blob: hex, Result: rest[2] + " " + mode})
+			s.mu.Unlock()
+			code, _ := strconv.Atoi(mode[len("patch"):])
+			http.Error(w, "upload not found", code)
+			return
+		}
+		buf := s.uploads[rest[2]]
+		if buf != nil {
 			buf.Write(b)
 		}
 		s.mu.Unlock()
+		if buf == nil {
+			http.Error(w, "upload not found", 404)
+			return
+		}
 		w.WriteHeader(200)
 	case r.Method == "PUT" && len(rest) == 3:
 		uid := rest[2]
@@ -258,6 +312,15 @@ func (g *e2eRig) remoteOrigin(w http.ResponseWriter, r *http.Request) {
 		k := s.arrivals[hex]
 		s.arrivals[hex]++
 		bi := s.index[hex]
+		if s.spec.Lose[bi] == "commit404" && !s.lost[hex] {
+			// the upload vanished between its last PATCH and this commit
+			s.lost[hex] = true
+			delete(s.uploads, uid)
+			s.logLocked(e2eEvent{Kind: "upload_lost", Blob: hex, Result: uid + " commit404"})
+			s.mu.Unlock()
+			http.Error(w, "upload not found", 404)
+			return
+		}
 		fail := s.spec.FailOnce[bi] && !s.failed[hex]
 		if fail {
 			s.failed[hex] = true
@@ -328,8 +391,15 @@ func (c *e2eTagClient) PutAndReplicate(tag string, d core.Digest) error {
 	s := c.p.s
 	s.mu.Lock()
 	defer s.mu.Unlock()
+	// the required blobs are those of the digest actually put (per-digest table)
+	required, known := s.deps[d.Hex()]
+	if !known {
+		s.logLocked(e2eEvent{Kind: "put", Tag: tag, Result: "unknown digest " + short(d.Hex())})
+		s.findings = append(s.findings, finding{"put-with-wrong-digest", fmt.Sprintf("tag %s put with digest %s which was never pushed (pushed: %v)", tag, short(d.Hex()), s.pushed[tag])})
+		return fmt.Errorf("unknown manifest")
+	}
 	var missing []string
-	for _, dep := range s.deps[tag] {
+	for _, dep := range required {
 		if !s.present[dep] {
 			missing = append(missing, short(dep))
 		}
@@ -337,12 +407,12 @@ func (c *e2eTagClient) PutAndReplicate(tag string, d core.Digest) error {
 	if len(missing) > 0 {
 		s.logLocked(e2eEvent{Kind: "put", Tag: tag, Result: "dependencies not uploaded: " + strings.Join(missing, ",")})
 		s.findings = append(s.findings, finding{"tag-put-before-remote-upload-completed",
-			fmt.Sprintf("tag %s was put on the remote build-index while no upload of dependency %v had completed at the remote origin cluster", tag, missing)})
+			fmt.Sprintf("tag %s -> %s was put on the remote build-index while no upload of its dependency %v had completed at the remote origin cluster", tag, short(d.Hex()), missing)})
 		// what a real build-index answers when a dependency is missing
 		return fmt.Errorf("cannot upload tag, missing dependency %v", missing)
 	}
 	s.tags[tag] = true
-	s.logLocked(e2eEvent{Kind: "put", Tag: tag, Result: "ok"})
+	s.logLocked(e2eEvent{Kind: "put", Tag: tag, Result: "ok " + short(d.Hex())})
 	return nil
 }
 
@@ -385,12 +455,14 @@ type e2eOutcome struct {
 	puts        int
 	execs       int
 	failedUp    int
+	lostUp      int
+	pushes      int
 	received    int
 }
 
 func runE2E(t *testing.T, g *e2eRig, h *dbHandle, c e2eCase) *e2eOutcome {
 	s := &e2eState{spec: c, blobs: map[string][]byte{}, index: map[string]int{}, present: map[string]bool{}, arrivals: map[string]int{},
-		failed: map[string]bool{}, uploads: map[string]*bytes.Buffer{}, tags: map[string]bool{}, deps: map[string][]string{}, execCh: make(chan struct{}, 256)}
+		failed: map[string]bool{}, uploads: map[string]*bytes.Buffer{}, tags: map[string]bool{}, deps: map[string][]string{}, pushed: map[string][]string{}, lost: map[string]bool{}, execCh: make(chan struct{}, 256)}
 	var digests []core.Digest
 	local := blobclient.New(g.localAddr)
 	for b := range c.BlobSizes {
@@ -409,8 +481,17 @@ func runE2E(t *testing.T, g *e2eRig, h *dbHandle, c e2eCase) *e2eOutcome {
 		}
 	}
 	for _, ts := range c.Tasks {
+		s.deps[ts.Digest] = []string{}
 		for _, b := range ts.Deps {
-			s.deps[ts.Tag] = append(s.deps[ts.Tag], digests[b].Hex())
+			s.deps[ts.Digest] = append(s.deps[ts.Digest], digests[b].Hex())
+		}
+		s.pushed[ts.Tag] = append(s.pushed[ts.Tag], short(ts.Digest))
+		if ts.Repush != nil {
+			s.deps[ts.Repush.Digest] = []string{}
+			for _, b := range ts.Repush.Deps {
+				s.deps[ts.Repush.Digest] = append(s.deps[ts.Repush.Digest], digests[b].Hex())
+			}
+			s.pushed[ts.Tag] = append(s.pushed[ts.Tag], short(ts.Repush.Digest))
 		}
 	}
 	g.mu.Lock()
@@ -441,14 +522,23 @@ func runE2E(t *testing.T, g *e2eRig, h *dbHandle, c e2eCase) *e2eOutcome {
 	if err != nil {
 		t.Fatalf("manager: %v", err)
 	}
-	for _, ts := range c.Tasks {
-		d, _ := core.NewSHA256DigestFromHex(ts.Digest)
+	push := func(tag, digest string, blobs []int, delay time.Duration) {
+		d, _ := core.NewSHA256DigestFromHex(digest)
 		var deps core.DigestList
-		for _, b := range ts.Deps {
+		for _, b := range blobs {
 			deps = append(deps, digests[b])
 		}
-		if err := m.Add(tagreplication.NewTask(ts.Tag, d, deps, dest, 0)); err != nil {
+		if err := m.Add(tagreplication.NewTask(tag, d, deps, dest, delay)); err != nil {
 			t.Fatalf("add: %v", err)
+		}
+		s.mu.Lock()
+		s.logLocked(e2eEvent{Kind: "push", Tag: tag, Result: fmt.Sprintf("%s deps=%v delay=%s", short(digest), blobs, delay)})
+		s.mu.Unlock()
+	}
+	for _, ts := range c.Tasks {
+		push(ts.Tag, ts.Digest, ts.Deps, time.Duration(ts.DelayMs)*time.Millisecond)
+		if ts.Repush != nil {
+			push(ts.Tag, ts.Repush.Digest, ts.Repush.Deps, 0)
 		}
 	}
 
@@ -518,6 +608,10 @@ func runE2E(t *testing.T, g *e2eRig, h *dbHandle, c e2eCase) *e2eOutcome {
 			o.execs++
 		case "upload_failed":
 			o.failedUp++
+		case "upload_lost":
+			o.lostUp++
+		case "push":
+			o.pushes++
 		case "blob_received":
 			o.received++
 		}
@@ -578,12 +672,14 @@ func runE2EPhase(t *testing.T, run *ev.Run) {
 		}
 		// non-trivial: requests for one blob met at the origin (a commit arrived
 		// while another commit of the same blob was held) or an upload failed
-		run.Case("e2e:"+ev.JSON(o.spec), o.overlapping > 0 || o.failedUp > 0)
+		run.Case("e2e:"+ev.JSON(o.spec), o.overlapping > 0 || o.failedUp > 0 || o.lostUp > 0 || o.pushes > len(o.spec.Tasks))
 		run.Count("e2e_cases", 1)
 		run.Count("e2e_executions", int64(o.execs))
 		run.Count("e2e_tag_puts", int64(o.puts))
 		run.Count("e2e_remote_uploads_completed", int64(o.received))
 		run.Count("e2e_remote_uploads_failed", int64(o.failedUp))
+		run.Count("e2e_remote_uploads_lost_before_commit_or_patch", int64(o.lostUp))
+		run.Count("e2e_repushes_of_a_queued_tag", int64(o.pushes-len(o.spec.Tasks)))
 		run.Count("e2e_commits_held", int64(o.heldSeen))
 		run.Count("e2e_commits_arriving_while_same_blob_held", int64(o.overlapping))
 		if o.overlapping > 0 {
